@@ -51,6 +51,17 @@ fn rows_of(case: &WorldCase, iq: Arc<IndexedQuery>) -> String {
     }
 }
 
+/// what `Schema`'s public read API says about every vertex type of the job's schema (sorted, as text)
+fn schema_api_text(schema: &Schema, job: &WorldCase) -> String {
+    let mut out = String::new();
+    for t in &job.world.schema.types {
+        let mut subs: Vec<String> = schema.subtypes(&t.name).map(|it| it.map(|s| s.to_string()).collect()).unwrap_or_default();
+        subs.sort();
+        out.push_str(&format!("{}: {:?}\n", t.name, subs));
+    }
+    out
+}
+
 fn compile_text(schema: &Schema, text: &str) -> (String, Option<Arc<IndexedQuery>>) {
     match engine::compile(schema, text) {
         CompileOutcome::Ok(iq) => (ron::to_string(&iq.ir_query).unwrap_or_else(|e| format!("ron-error:{e}")), Some(iq)),
@@ -92,9 +103,14 @@ fn run_worker(seed: u64, index: u64, batches: usize) -> WorkerOut {
 
     let mut regex_cfg = default_gen_config();
     regex_cfg.query.regex_bias = true;
+    // large schemas (up to 22 vertex types): per-schema lookup structures with a bounded size only show their eviction
+    // behaviour beyond a handful of types
+    let mut big_cfg = default_gen_config();
+    big_cfg.schema.max_ifaces = 8;
+    big_cfg.schema.max_objects = 14;
     for b in 0..batches {
         // every third batch is biased towards regex filters with tag operands: those are compiled at run time, per value
-        let batch_cfg = if b % 3 == 1 { &regex_cfg } else { &cfg };
+        let batch_cfg = if b % 3 == 1 { &regex_cfg } else if b % 3 == 2 { &big_cfg } else { &cfg };
         let jobs: Vec<WorldCase> = (0..JOBS_PER_BATCH)
             .map(|_| {
                 let bytes = strategy.new_tree(&mut runner).expect("generate").current();
@@ -142,6 +158,11 @@ fn run_worker(seed: u64, index: u64, batches: usize) -> WorkerOut {
         }
 
         let schemas: Vec<Option<Schema>> = jobs.iter().map(|j| parse(&j.sdl)).collect();
+        // the read API of a shared schema, as adapters use it (`resolve_coercion_using_schema` calls `subtypes`)
+        let schema_api: Vec<String> = jobs.iter().zip(schemas.iter()).map(|(j, s)| s.as_ref().map(|s| schema_api_text(s, j)).unwrap_or_default()).collect();
+        if jobs.iter().any(|j| j.world.schema.types.len() > 17) {
+            label(&mut out, "batch_with_a_schema_of_more_than_16_vertex_types");
+        }
         let mut expected: Vec<(String, String)> = vec![];
         let mut compiled: Vec<Option<Arc<IndexedQuery>>> = vec![];
         for (j, s) in jobs.iter().zip(schemas.iter()) {
@@ -163,15 +184,23 @@ fn run_worker(seed: u64, index: u64, batches: usize) -> WorkerOut {
         let shared_exec = compiled.iter().filter(|c| c.is_some()).count();
         std::thread::scope(|scope| {
             for t in 0..n_threads {
-                let (jobs, schemas, compiled, expected, barrier, mismatches) = (&jobs, &schemas, &compiled, &expected, &barrier, &mismatches);
+                let (jobs, schemas, compiled, expected, barrier, mismatches, schema_api) =
+                    (&jobs, &schemas, &compiled, &expected, &barrier, &mismatches, &schema_api);
                 scope.spawn(move || {
                     barrier.wait();
                     for round in 0..ROUNDS {
                         for k in 0..jobs.len() {
                             let idx = (k + t + round) % jobs.len();
                             let Some(schema) = &schemas[idx] else { continue };
-                            let mode = (t + round) % 3;
+                            let mode = (t + round) % 4;
                             let (what, ok, got) = match mode {
+                                3 => {
+                                    let text = match engine::catch(|| schema_api_text(schema, &jobs[idx])) {
+                                        Ok(t) => t,
+                                        Err(p) => format!("panic: {}", p.message),
+                                    };
+                                    ("read the shared &Schema (subtypes of every type)", text == schema_api[idx], text)
+                                }
                                 0 => {
                                     let (ir, _) = compile_text(schema, &jobs[idx].query_text);
                                     ("compile against the shared &Schema", ir == expected[idx].0, ir)
